@@ -102,17 +102,28 @@ func judgeCreated(c *Case, ts *TS, path, login string, creator hotline.AccessBit
 	return class
 }
 
-// runCreate performs one creation request on a fresh server and judges it.  which: "new" (350) or "editor" (349).
-func runCreate(c *Case, which string, creator hotline.AccessBitmap, field []byte, deep bool) {
+// newCreateServer: a server whose only account is the creator's.
+func newCreateServer(c *Case, creator hotline.AccessBitmap) *TS {
 	ts, err := newTS(TSOpt{Direct: true, Accounts: []AcctSpec{{Login: "creator", Name: "creator", Password: "", Access: hotline.AccessBitmap(maskDefined(creator))}}})
 	if err != nil {
 		c.Note("err", err.Error())
 		c.Disagree("fixture", "test server could not be built")
-		return
+		return nil
 	}
-	defer ts.Close()
+	return ts
+}
+
+// runCreate performs one creation request (for a login that does not exist yet) and judges it.
+// which: "new" (350) or "editor" (349).  ts == nil: on a fresh server.
+func runCreate(c *Case, ts *TS, which string, creator hotline.AccessBitmap, field []byte, deep bool) {
+	if ts == nil {
+		if ts = newCreateServer(c, creator); ts == nil {
+			return
+		}
+		defer ts.Close()
+	}
 	cc, _ := directClientWith(ts, "creator", "10.0.0.1:1000", creator)
-	login := "fresh"
+	login := "fresh-" + which
 	var t hotline.Transaction
 	var model string
 	if which == "new" {
@@ -209,6 +220,11 @@ func (o *discObs) finish(c *Case) {
 		c.Note("panic", fmt.Sprint(o.pan))
 		c.Violation("disconnect-panic", "the disconnect handler panicked")
 		return
+	}
+	// the delayed disconnect fires 1 s after the call; on a loaded machine give an expected one more time
+	// (an unexpected one is looked for after the fixed 1.4 s only: lateness can hide it, never invent it)
+	if bitOf(dc.requester, 22) && !bitOf(dc.target, 23) && !o.tgConn.IsClosed() {
+		waitFor(30*time.Second, o.tgConn.IsClosed)
 	}
 	late := o.ts.TakeOutbox()
 	closed := o.tgConn.IsClosed()
@@ -339,13 +355,19 @@ func init() {
 			field := bmOf(j)
 			c.Note("i", i)
 			c.Note("j", j)
-			runCreate(c, "new", creator, field[:], idx%16 == 0)
-			runCreate(c, "editor", creator, field[:], idx%16 == 1)
+			// both creation requests on one server (different logins)
+			ts := newCreateServer(c, creator)
+			if ts == nil {
+				return
+			}
+			defer ts.Close()
+			runCreate(c, ts, "new", creator, field[:], idx%16 == 0)
+			runCreate(c, ts, "editor", creator, field[:], idx%16 == 1)
 			if idx%517 == 0 {
 				c.Sample(map[string]any{"family": "create-single-bit-pairs", "creator_bits": bmBits(creator), "requested_bit": j})
 			}
 		}})
-		x.Add(&Family{Name: "create-random-pairs", Quick: 1200, Thor: 120000, Run: func(c *Case) {
+		x.Add(&Family{Name: "create-random-pairs", Quick: 1200, Thor: 40000, Run: func(c *Case) {
 			r := c.R
 			creator := randBitmap(r)
 			if r.Chance(85) {
@@ -398,10 +420,10 @@ func init() {
 			if r.Bool() {
 				which = "editor"
 			}
-			runCreate(c, which, creator, field, r.Chance(10))
+			runCreate(c, nil, which, creator, field, r.Chance(10))
 			c.Dist(fmt.Sprintf("create/fieldlen-%02d", len(field)))
 		}})
-		x.Add(&Family{Name: "editor-multi", Quick: 300, Thor: 20000, Run: func(c *Case) {
+		x.Add(&Family{Name: "editor-multi", Quick: 300, Thor: 8000, Run: func(c *Case) {
 			// several sub-requests in one editor transaction: every account that exists afterwards and did not
 			// exist before must be ⊆ creator
 			r := c.R
